@@ -262,4 +262,24 @@ CLAIMED = {
         "technique": "TLA+ exact geometry checked by TLC; exported cases replayed into the implementation",
         "design_ref": "DESIGN.md section 4 (C15)",
     },
+    "C02": {
+        "text": "FwdModelZi.tla IS the independent reference implementation the property asks for: a step-wise "
+                "(Start, Transmit, ToSpectrum, Propagate, Back, Detect) multislice mixed-state forward model over "
+                "the Gaussian integers - ROI 2x2 / 4x4 (DFT entries in {1,-i,-1,i}), quarter-turn object phases, "
+                "Gaussian-integer probe modes, integer scan positions with wrap-around, quarter-wave slices. TLC "
+                "checks WaveEnergy at every step, IntensityConserved and Orthogonal, rejects a wrong twiddle "
+                "exponent, and exports the exact integer patterns unperturbed and with one object pixel / one "
+                "probe pixel turned by a quarter turn. The library is fed the exact data (Dataset4dstem -> its own "
+                "preprocessing with no_shift), given the ground truth through its public constructors/setters, and "
+                "every data-fidelity loss (l1/l2 amplitude/intensity) must vanish for every batch size, object "
+                "type (complex, pure_phase, potential) and object padding; at TLC-certified perturbations the loss "
+                "must be strictly larger. This decides the convention half of the property (patch index order and "
+                "wrap, fftshift, normalisation, propagator sign, mode sum) exactly.",
+        "note": "NOT reached: fractional positions, odd / non-square ROIs, generic phases and probes, constant "
+                "descan (the exact sub-domain only). Trusted: TLC arithmetic, the fixture's geometry glue. Zero "
+                "tolerances reflect the library's eps=1e-9 under the square root.",
+        "technique": "TLA+ Gaussian-integer reference model executed by TLC; exact data replayed into the "
+                     "library's forward pipeline",
+        "design_ref": "DESIGN.md section 4 (C02)",
+    },
 }
